@@ -70,3 +70,22 @@ package log
 //@ func (*rollingFile).log
 //@   on return assert sync-when-required: rf.keepInSync ==> called((*os.File).Sync) && lastarg((*os.File).Sync, 0) == rf.fh
 //@   before call (*log.Logger).Println assert rotated-first: called((*rollingFile).rotate)
+
+// ---------------------------------------------------------------- replay and day files (C18)
+
+// the line handler of Parse: every record with at least four fields is handed to the handler with
+// its own name, rename, hash, size and time - none is skipped
+//@ func (*FileIO).Parse$1
+//@   on return assert every-record-reaches-the-handler: len(parts) >= 4 ==> called(handler) && ncalls(handler) == 1 && r0 == lastret(handler, 0) && lastarg(handler, 0) == parts[0] && (len(parts) > 4 ==> lastarg(handler, 1) == parts[1] && lastarg(handler, 2) == parts[2]) && (len(parts) == 4 ==> lastarg(handler, 1) == "" && lastarg(handler, 2) == parts[1])
+//@   on return assert malformed-line-is-skipped: len(parts) < 4 ==> !r0 && !called(handler)
+//@   before call handler assert size-and-time-of-the-record: arg3 == prevret(strconv.ParseInt, 1, 0) && arg4 == time.Unix(lastret(strconv.ParseInt, 0), 0) && prevarg(strconv.ParseInt, 1, 0) == parts[i+1] && lastarg(strconv.ParseInt, 0) == parts[i+2]
+//@   modifies everything
+
+//@ func (*FileIO).Parse
+//@   on return assert replays-the-window: called((*rollingFile).eachLine) && lastarg((*rollingFile).eachLine, 0) == old(f.logger) && lastarg((*rollingFile).eachLine, 2) == after && lastarg((*rollingFile).eachLine, 3) == before
+//@   modifies everything
+
+// records are appended to the day file of the local day - the same day arithmetic the look-ups use
+//@ func (*rollingFile).getCurrPath
+//@   on return assert day-file-of-now: called(time.Now) && called((*rollingFile).getPath) && lastarg((*rollingFile).getPath, 0) == rf && lastarg((*rollingFile).getPath, 1) == lastret(time.Now, 0) && result == lastret((*rollingFile).getPath, 0)
+//@   modifies everything
